@@ -22,6 +22,7 @@ EXPLANATION = (
     "depends on the previously active encoding; (5) PROG: the byte-walking loops advance on every back edge; (6) DEADCMP: within_double_byte(t, a, a) can never answer 2, so a `== 2` "
     "test must pass a line start different from the position; (7) KIND: no container-kind misuse in str_util / util."
     ' Added after seed round 3: (8) within_double_byte tests exactly the byte ranges of the double-byte encodings, compared as integer intervals (`> 0x80` and `>= 0x81` are the same); (9) calc_trim_text searches absolute columns from start_offs and returns a start offset that comes from a column search on every left-trimming path.'
+    " Round 4: only get_char_width consults the wcwidth package (C11.3); (10) RANGE - every ordinal decode_one can return is at most 0x10FFFF (bit-arithmetic upper bounds, tightened by the branch's own comparison); (11) scan-exit twins; (12) a distance bound on the continuation-byte scans leaves room for 4 bytes; (13) PAIRLEN in apply_target_encoding."
 )
 NOT_DECIDED = "Additivity of widths, offset/column agreement, str-vs-bytes agreement for every code point, the padding flags of trimming, DEC special character mapping values - exhaustive value questions over code points."
 ASSUMPTIONS = ["Canonical codec spellings are taken from the analysing interpreter's codec registry (codecs.lookup(name).name)."]
